@@ -145,3 +145,8 @@ Proof. do 2 eexists. reflexivity. Qed.
 Lemma ex_deflation7 :
   exists tr, poly_solve RA7r [f0; f0; f0; f0; f1] false = Ok ([f0; f0; f0; f0], tr) /\ length tr = 4.
 Proof. eexists. split; [vm_compute; reflexivity | reflexivity]. Qed.
+
+Lemma ex_polish7 :
+  exists rs tr l, poly_solve RA7r [f0; f0; f0; f0; f1] true = Ok (rs, tr) /\
+                  nth_error tr (length tr - 4 + 0) = Some l /\ lwhy l = Converged.
+Proof. do 3 eexists. split; [vm_compute; reflexivity | split; reflexivity]. Qed.
